@@ -1293,7 +1293,6 @@ func (s *Server) processSubscribe(cl *Client, pk packets.Packet) error {
 	for i, sub := range pk.Filters {
 		if code != packets.CodeSuccess {
 			reasonCodes[i] = code.Code // NB 3.9.3 Non-normative 0x91
-			continue
 		} else if !IsValidFilter(sub.Filter, false) {
 			reasonCodes[i] = packets.ErrTopicFilterInvalid.Code
 		} else if sub.NoLocal && IsSharedFilter(sub.Filter) {
